@@ -40,8 +40,8 @@ import (
 	"time"
 
 	"github.com/KafScale/platform/pkg/storage"
-	"github.com/kafscale/platform/addons/processors/sql-processor/internal/decoder"
-	"github.com/kafscale/platform/addons/processors/sql-processor/internal/sink"
+	"github.com/KafScale/platform/addons/processors/iceberg-processor/internal/decoder"
+	"github.com/KafScale/platform/addons/processors/iceberg-processor/internal/sink"
 	"pgregory.net/rapid"
 	"verif.local/vfkit"
 )
